@@ -474,14 +474,21 @@ def export_cases(ctx, tmpdir):
             # the application peeks at what has been saved so far (the public `data` property) while the stream is still running
             import time as _t
 
-            _t.sleep(0.05)
-            try:
-                peek = saver.data
+            t_end = _t.monotonic() + 10.0
+            while tw.is_alive() and _t.monotonic() < t_end:  # (wall clock only decides WHEN the peek happens, never a verdict)
+                _t.sleep(0.005)
+                try:
+                    peek = saver.data
+                except Exception:
+                    continue  # nothing flushed yet / header not complete: the property says nothing about a half-written file
+                if not peek:
+                    continue
                 ctx.count("saved_data_read_while_the_stream_was_still_running")
+                if len(peek) < len(data):
+                    ctx.count("saved_data_read_while_part_of_the_stream_was_still_to_come")
                 if not data.startswith(bytes(peek)):
                     ctx.violation("data-read-mid-stream-is-not-a-prefix-of-the-audio", {"case": {"raw_export": fname}, "peeked_bytes": len(peek)})
-            except Exception:
-                pass  # nothing flushed yet / header not complete: the property says nothing about a half-written file
+                break
         tw.join(120)
         saver.join(120)
         ctx.count("raw_export_runs")
